@@ -104,7 +104,32 @@ def no_mutation_of_iterated(ctx, modname: str, why: str):
 VALIDATORS = ("_is_base_n(", "is_float(", "is_base_n(", "_looks_like_number(")
 
 
-def checked_conversions(ctx, quals: Iterable[str], exempt_sources: Tuple[str, ...] = ("_user_value",), validated_params: Tuple[str, ...] = ()):
+SYMBOL_VALUE_MARKS = (".str_value", ".name", "_user_value", "_sdkconfig_value")
+
+
+def symbol_value_converters(repo: Repo, modnames: Iterable[str]) -> List[str]:
+    """every function of the given modules that applies int()/float() to text taken from a symbol (its value, the name
+    of a literal symbol, a stored user / sdkconfig value) - directly or through a local assigned from one"""
+    from .c04 import _reaching
+    out = []
+    for m in modnames:
+        if m not in repo.modules:
+            continue
+        for f in repo.funcs_in(m):
+            for n in own_nodes(repo, f):
+                if isinstance(n, ast.Call) and isinstance(n.func, ast.Name) and n.func.id in ("int", "float") and n.args and not isinstance(n.args[0], ast.Constant):
+                    txt = ast.unparse(n.args[0])
+                    if isinstance(n.args[0], ast.Name):
+                        v = _reaching(repo, f.node, n.args[0].id, n)
+                        txt += " " + (ast.unparse(v) if v is not None else "")
+                    if any(mk in txt for mk in SYMBOL_VALUE_MARKS):
+                        out.append(f.qual)
+                        break
+    return out
+
+
+def checked_conversions(ctx, quals: Iterable[str], exempt_sources: Tuple[str, ...] = ("_user_value",), validated_params: Tuple[str, ...] = (),
+                        only_symbol_values: bool = False, exempt_funcs: Optional[Dict[str, str]] = None):
     """Every int(x, base) / float(x) applied to a symbol's *value* in the given functions is guarded by the matching
     validity predicate (dominating guard or the test of the conditional expression), sits in a try that handles
     ValueError, or converts a value that was validated when it was stored (user values)."""
@@ -122,8 +147,6 @@ def checked_conversions(ctx, quals: Iterable[str], exempt_sources: Tuple[str, ..
             at = ast.unparse(arg)
             if isinstance(arg, ast.Constant):
                 continue
-            k += 1
-            construct = f"{f.short}/{n.func.id}({at[:30]}{', ' + ast.unparse(n.args[1]) if len(n.args) > 1 else ''}) #{k} is a checked conversion"
             src_txt = at
             if isinstance(arg, ast.Name):
                 # nearest preceding assignment of the converted local in the same or an enclosing block
@@ -131,6 +154,13 @@ def checked_conversions(ctx, quals: Iterable[str], exempt_sources: Tuple[str, ..
                 v = _reaching(repo, f.node, arg.id, n)
                 if v is not None:
                     src_txt = ast.unparse(v)
+            if only_symbol_values and not any(mk in at or mk in src_txt for mk in SYMBOL_VALUE_MARKS) and not (isinstance(arg, ast.Name) and arg.id in validated_params):
+                continue
+            k += 1
+            construct = f"{f.short}/{n.func.id}({at[:30]}{', ' + ast.unparse(n.args[1]) if len(n.args) > 1 else ''}) #{k} is a checked conversion"
+            if exempt_funcs and f.short in exempt_funcs:
+                ctx.exempt(construct, exempt_funcs[f.short], f.loc(n))
+                continue
             if any(s in at or s in src_txt for s in exempt_sources):
                 ctx.ok(construct, f.loc(n), by="validated when stored")
                 continue
@@ -139,6 +169,14 @@ def checked_conversions(ctx, quals: Iterable[str], exempt_sources: Tuple[str, ..
                 continue
             gs = fl.guards_at(n) or set()
             guarded = any(p and k2.startswith(VALIDATORS) for k2, p in gs)
+            # consumers of an *evaluated* numeric value: it is a number of its type or empty, so a non-empty test is the guard
+            if isinstance(arg, ast.Name) and src_txt.endswith(".str_value"):
+                # ... of the symbol whose numeric type the branch has established (a bound or a `set` value may be any symbol)
+                recvs = {src_txt[:-len(".str_value")], ast.unparse(res.resolve(ast.parse(src_txt, mode="eval").body))[:-len(".str_value")]}
+                typed = any(p and any(k2.startswith((f"{rv}.type ==", f"{rv}.orig_type ==", f"{rv}.type in", f"{rv}.orig_type in")) for rv in recvs) for k2, p in gs)
+                forms = {arg.id, ast.unparse(res.resolve(arg))}
+                if typed and any((v, True) in gs or any(k2.startswith(f"not {v} and ") and not p for k2, p in gs) for v in forms):
+                    guarded = True
             # value derived from a validated one in the same block: `val = x.name` / `_normalize_float(x.name)` under the guard
             tried = False
             p = repo.parent(n)
@@ -519,3 +557,58 @@ def tree_walk_complete(ctx, quals: Iterable[str], why: str):
                 ctx.bad(construct, f"the walk descends only under {extra}: {why}", f.loc(n))
             else:
                 ctx.ok(construct, f.loc(n))
+
+
+# --------------------------------------------------------------------------- number formatters get numbers
+def formatter_args_are_numbers(ctx, quals: Iterable[str]):
+    """hex() - directly or through a local alias such as `num2str = str if base == 10 else hex` - is only applied to locals
+    that hold an int on every assignment (int(..) conversions, int constants, conditional expressions / copies of such):
+    hex(<Symbol>) or hex(<str>) is a TypeError at evaluation time."""
+    repo = ctx.repo
+    for q in quals:
+        f = repo.func(q)
+        ctx.analysed(q)
+        aliases = {"hex"}
+        for n in own_nodes(repo, f):
+            if isinstance(n, ast.Assign) and isinstance(n.targets[0], ast.Name) and any(isinstance(x, ast.Name) and x.id == "hex" for x in ast.walk(n.value)) \
+                    and not any(isinstance(x, ast.Call) for x in ast.walk(n.value)):
+                aliases.add(n.targets[0].id)
+        defs: Dict[str, List[ast.AST]] = {}
+        for n in own_nodes(repo, f):
+            if isinstance(n, ast.Assign):
+                for t in n.targets:
+                    if isinstance(t, ast.Name):
+                        defs.setdefault(t.id, []).append(n.value)
+            elif isinstance(n, (ast.For, ast.comprehension)):
+                for t in ast.walk(n.target):
+                    if isinstance(t, ast.Name):
+                        defs.setdefault(t.id, []).append(ast.Name(id="<loop item>", ctx=ast.Load()))
+
+        def is_int(e: ast.AST, depth: int = 4) -> bool:
+            if isinstance(e, ast.Constant):
+                return isinstance(e.value, int) and not isinstance(e.value, bool)
+            if isinstance(e, ast.Call) and isinstance(e.func, ast.Name) and e.func.id in ("int", "len", "min", "max", "abs"):
+                return e.func.id in ("int", "len") or all(is_int(a, depth) for a in e.args)
+            if isinstance(e, ast.IfExp):
+                return is_int(e.body, depth) and is_int(e.orelse, depth)
+            if isinstance(e, ast.BinOp) and isinstance(e.op, (ast.Add, ast.Sub, ast.Mult, ast.FloorDiv, ast.Mod)):
+                return is_int(e.left, depth) and is_int(e.right, depth)
+            if isinstance(e, ast.Name) and depth > 0:
+                return e.id in defs and all(is_int(v, depth - 1) for v in defs[e.id])
+            return False
+
+        fl = Flow(f.node, resolver=Resolver(f.node)).run()
+        k = 0
+        for n in own_nodes(repo, f):
+            if isinstance(n, ast.Call) and isinstance(n.func, ast.Name) and n.func.id in aliases and n.args:
+                k += 1
+                construct = f"{f.short}/{n.func.id}({ast.unparse(n.args[0])[:30]}) #{k} formats an integer"
+                a0 = n.args[0]
+                ok = is_int(a0)
+                if not ok and isinstance(a0, ast.Name) and (f"{a0.id} is None", False) in (fl.guards_at(n) or set()):
+                    # `x = None` initialisation ruled out by the dominating `x is not None`
+                    ok = a0.id in defs and all(is_int(v) or (isinstance(v, ast.Constant) and v.value is None) for v in defs[a0.id])
+                (ctx.ok(construct, f.loc(n), nontrivial=False) if ok else
+                 ctx.bad(construct, f"`{ast.unparse(n)}`: the argument is not an integer on every path (it is bound from "
+                         f"{[ast.unparse(v)[:30] for v in defs.get(getattr(n.args[0], 'id', ''), [])][:3] or 'a non-local expression'}): hex() of a Symbol or a "
+                         "string raises TypeError while the value is being evaluated", f.loc(n)))
